@@ -428,6 +428,10 @@ class CloneOp(Spec):
         return r["failures"][0] if r["failures"] else None
 
 
+WALKR, NWALKR = z3.Function("walk_of_region", I, z3.ArraySort(I, I)), z3.Function("n_walk_of_region", I, I)  # pre-order walk of all ops of a region
+NEWWALK = z3.Function("walk_of_the_blocks_created_for_region", I, z3.ArraySort(I, I))
+
+
 class CloneOpCallee(CloneOp):
     """Operation.clone(value_mapper, block_mapper, clone_operands=False) as seen by Region.clone_into: its discharged postcondition."""
 
@@ -479,6 +483,8 @@ class CloneInto(Spec):
         b_insert_arg.ghost_modifies = ["ins_blk", "ins_idx", "ins_arg"]
         self.calls = {"Block": Builtin(b_block, "Block(): a fresh block"),
                       "dest.insert_block": noop("Region.insert_block: block-list surgery on the destination (C01); touches no mapper, no operand list"),
+                      "self.walk": Builtin(lambda ex, st, a, k: [Res("val", VSeq(WALKR(st.env["self"].z), NWALKR(st.env["self"].z), "ref", "Operation"), st)],
+                                           "Region.walk(): the pre-order sequence of the ops of the region (uninterpreted)"),
                       ".insert_arg": Builtin(b_insert_arg, "Block.insert_arg on a block created by this call (C01): args[idx] is then the new argument"),
                       "new_block.add_op": noop("Block.add_op on a block created by this call (C01)"),
                       "op.clone": CloneOpCallee()}
@@ -516,8 +522,27 @@ class CloneInto(Spec):
                 return [Res("val", VRef(st.ghost["ins_arg"], "BlockArgument"), st)]
             return None
 
-        return {"__getattr__": getattr_, "__iter__": iter_, "__getitem__": getitem_,
-                "__setters__": {"name_hint": Builtin(setter_name_hint, "name_hint setter stores the (validated) name")}}
+        spec = self
+
+        def expr(ex, st, text):
+            if text != "(op for new_block in new_blocks for op in new_block.walk())":
+                return None
+            # ASSUMED shape of the copy (from the contracts of the cloning callees): the ops of the new blocks, walked in order, pair positionally with the walk of
+            # the source region and are fresh pairwise distinct ops
+            r = st.env["self"].z
+            j, k = z3.Ints("nw!j nw!k")
+            al = spec._fentry.alloc()
+            st.assume(z3.And(forall([j], z3.Implies(z3.And(j >= 0, j < NWALKR(r)), z3.And(NEWWALK(r)[j] != 0, z3.Not(al[NEWWALK(r)[j]])))),
+                             forall([j, k], z3.Implies(z3.And(j >= 0, k >= 0, j < NWALKR(r), k < NWALKR(r), j != k), NEWWALK(r)[j] != NEWWALK(r)[k]))))
+            return VSeq(NEWWALK(r), NWALKR(r), "ref", "Operation")
+
+        def getattr2(ex, st, base, attr):
+            if attr == "operands" and base.cls == "Operation":
+                return VSeq(st.seq_arr("_operands", base.z), st.seq_len("_operands", base.z), "ref", "SSAValue")
+            return getattr_(ex, st, base, attr)
+
+        return {"__getattr__": getattr2, "__iter__": iter_, "__getitem__": getitem_, "__expr__": expr,
+                "__setters__": {"name_hint": Builtin(setter_name_hint, "name_hint setter stores the (validated) name"), "operands": Builtin(b_set_operands, b_set_operands.__doc__)}}
 
     def setup(self, st, inst):
         st.ghost["ins_blk"], st.ghost["ins_idx"], st.ghost["ins_arg"] = z3.IntVal(0), z3.IntVal(-1), z3.IntVal(0)
@@ -526,7 +551,7 @@ class CloneInto(Spec):
         vm = st.declare_input("value_mapper", z3.Int("value_mapper"))
         bm = st.declare_input("block_mapper", z3.Int("block_mapper"))
         return {"self": VRef(r, "Region"), "dest": VRef(dest, "Region"), "insert_index": 0, "value_mapper": VRef(vm, "dict", ("dict", "ref", "ref")),
-                "block_mapper": VRef(bm, "dict", ("dict", "ref", "ref")), "clone_name_hints": inst["hints"], "clone_operands": False,
+                "block_mapper": VRef(bm, "dict", ("dict", "ref", "ref")), "clone_name_hints": inst["hints"], "clone_operands": bool(inst.get("operands", False)),
                 "_r": r, "_vm": vm, "_bm": bm}
 
     def pre(self, st, a):
@@ -542,6 +567,7 @@ class CloneInto(Spec):
                 forall([b, i], z3.Implies(z3.And(al[b], i >= 0, i < NARGSB(b)), z3.And(ARGSB(b)[i] != 0, al[ARGSB(b)[i]]))),
                 forall([b, i], z3.Implies(z3.And(al[b], i >= 0, i < NOPSB(b)), z3.And(OPSB(b)[i] != 0, al[OPSB(b)[i]]))))),
             A("operand-lists-have-lengths", forall([i], st.seq_len("_operands", i) >= 0)),
+            A("the-ops-of-the-source-region-are-objects", z3.And(NWALKR(r) >= 0, forall([i], z3.Implies(z3.And(i >= 0, i < NWALKR(r)), z3.And(WALKR(r)[i] != 0, al[WALKR(r)[i]]))))),
             A("a-value-has-one-definition: a block argument of the region is not defined by or inside an op of the region",
               forall([k, i, b, z3.Int("cp!j")], z3.Implies(z3.And(k >= 0, k < NBLOCKS(r), i >= 0, i < NOPSB(BLOCKS(r)[k]), b >= 0, b < NBLOCKS(r), z3.Int("cp!j") >= 0,
                                                                  z3.Int("cp!j") < NARGSB(BLOCKS(r)[b])), z3.Not(INSIDE_O(OPSB(BLOCKS(r)[k])[i], ARGSB(BLOCKS(r)[b])[z3.Int("cp!j")])))))]
@@ -577,6 +603,16 @@ class CloneInto(Spec):
         if n == 1:
             # for block, new_block in zip(self.blocks, new_blocks)
             return self._common(st, a) + [done_blocks(k), done_args(k)]
+        if n >= 4:
+            # for old, new in zip(self.walk(), new_ops): new.operands = tuple(value_mapper.get(operand, operand) for operand in old.operands)
+            i_ = z3.Int("cj!i")
+            m = lambda v: z3.If(entry.dict_has(vm, v), entry.dict_val(vm, v), v)
+            return self._common(st, a) + [done_blocks(NBLOCKS(r)), done_args(NBLOCKS(r)),
+                A("mappers-unchanged", z3.And(st.arr2("dict#dom", True) == entry.arr2("dict#dom", True), st.arr2("dict#val") == entry.arr2("dict#val"))),
+                A("remapped-prefix", forall([j], z3.Implies(z3.And(j >= 0, j < k), z3.And(
+                    st.seq_len("_operands", NEWWALK(r)[j]) == fe.seq_len("_operands", WALKR(r)[j]),
+                    forall([i_], z3.Implies(z3.And(i_ >= 0, i_ < fe.seq_len("_operands", WALKR(r)[j])),
+                                            st.seq_el("_operands", NEWWALK(r)[j], i_) == m(fe.seq_el("_operands", WALKR(r)[j], i_))))))))]
         k1 = lv["outer"][1]
         b = blk(k1)
         args_done = lambda ii: A("arguments-of-this-block-registered-to-values-created-by-this-call", forall([j], z3.Implies(z3.And(j >= 0, j < ii), z3.And(
@@ -589,7 +625,17 @@ class CloneInto(Spec):
                                       A("values-of-processed-ops-registered", forall([j, x], z3.Implies(z3.And(j >= 0, j < k, INSIDE_O(OPSB(b)[j], x)), st.dict_has(vm, x))))]
 
     def post(self, old, st, a, res):
-        return [C(n, z) for n, z in clone_into_post(old, st, a["_r"], a["_vm"], a["_bm"])]
+        out = [C(n, z) for n, z in clone_into_post(old, st, a["_r"], a["_vm"], a["_bm"])]
+        if a["clone_operands"]:
+            r, vm = a["_r"], a["_vm"]
+            j, i = z3.Ints("cq!j cq!i")
+            m = lambda v: z3.If(st.dict_has(vm, v), st.dict_val(vm, v), v)
+            out.append(C("every-operand-of-the-copy-is-the-image-of-the-source-operand-under-the-final-mapper (inside references point into the copy, outside ones are kept)",
+                         forall([j], z3.Implies(z3.And(j >= 0, j < NWALKR(r)), z3.And(
+                             st.seq_len("_operands", NEWWALK(r)[j]) == old.seq_len("_operands", WALKR(r)[j]),
+                             forall([i], z3.Implies(z3.And(i >= 0, i < old.seq_len("_operands", WALKR(r)[j])),
+                                                    st.seq_el("_operands", NEWWALK(r)[j], i) == m(old.seq_el("_operands", WALKR(r)[j], i)))))))))
+        return out
 
     def native_search(self, inst, seed):
         r = N02.explore("quick", seed)
@@ -605,7 +651,7 @@ def make_specs(tier):
     c = CloneOp()
     c.instances = [{"hints": True, "operands": o} for o in (True, False)]
     ci = CloneInto()
-    ci.instances = [{"hints": True}, {"hints": False}]
+    ci.instances = [{"hints": True}, {"hints": False}, {"hints": True, "operands": True}]
     return [s, c, ci]
 
 
